@@ -140,8 +140,8 @@ fn section_header_with_name<'sc>(
             log::warn!("invalid sh_name offset for {:?}", name);
             continue;
         }
-        if sh_name + name.len() as u64 >= strtab_section_header.sh_size {
-            // This can't be a match.
+        if sh_name + name.len() as u64 > strtab_section_header.sh_size {
+            // This can't be a match (a name may end exactly where the table ends).
             continue;
         }
         let Some(name_offset) = strtab_section_header.sh_offset.checked_add(sh_name) else {
